@@ -391,7 +391,9 @@ def rule_declusesync(ctx, prop: str) -> RuleResult:
                 if always_raises(n.body) and "is_win" in ast.unparse(n.test):
                     rejecting.append((f, n))
     if not rejecting:
-        raise AnalysisError("anchor vanished: the raising window/dense test of WindowAnalysis")
+        res.instances += 1
+        res.ob(False)
+        res.add(Finding("DECLUSESYNC", WA, c.node.lineno, "WindowAnalysis", "no-rejection", "WindowAnalysis no longer rejects a window passed where a dense tensor is expected"))
     decl_lookup_methods = set()
     for name, meth in c.methods.items():
         if any(isinstance(k, ast.Subscript) and (dotted(k.value) or "").startswith("self.") for k in meth.body_nodes()) and name not in ("map_s", "map_fnarg", "__init__"):
